@@ -45,13 +45,13 @@ def jobs(tier, seed):
     else:
         for s, e in _pairs(3, 3, "all"):
             out.append(dict(h="astar", r=3, c=3, s=list(s), e=list(e)))
-    # 3x4 and 4x3 exhaustively (quick: one far-apart endpoint pair each, thorough: four): the 2^17 mazes split over 16 instances by four bits around the centre
+    # 3x4 and 4x3 exhaustively (thorough tier, four endpoint pairs each): the 2^17 mazes split over 16 instances by four bits around the centre
     import itertools as _it2
 
     for r, c in [(3, 4), (4, 3)]:
         names4 = ["c_0_0_1", "c_1_1_1", "c_0_1_1", "c_1_1_0"] if (r, c) == (3, 4) else ["c_0_1_1", "c_1_1_1", "c_0_0_1", "c_1_2_0"]
         prs4 = [((0, 0), (r - 1, c - 1)), ((r - 1, 0), (0, c - 1)), ((1, 1), (r - 1, c - 1)), ((0, c - 1), (r - 1, 1))]
-        for s_, e_ in (prs4[:1] if tier == "quick" else prs4):
+        for s_, e_ in ([] if tier == "quick" else prs4):  # (one pair in the quick tier was measured at +90 s wall: thorough only)
             for vals in _it2.product([False, True], repeat=4):
                 out.append(dict(h="astar", r=r, c=c, s=list(s_), e=list(e_), fix=dict(zip(names4, vals)), max_seconds=3300,
                                 label=f"astar:{r}x{c}:{s_}->{e_}:" + "".join("1" if v else "0" for v in vals)))
@@ -386,7 +386,7 @@ META = dict(
                "LatticeMaze.heuristic", "SolvedMaze.from_targeted_lattice_maze", "TargetedLatticeMaze.__post_init__",
                "SolvedMaze.__init__"],
     bounds=dict(
-        quick="all connection structures (every bit symbolic) on all grids r x c with r*c <= 6 and all ordered (start,end) pairs; 3x3 with 12 pairs; 3x4 and 4x3 (all 2^17 mazes each) for one corner-to-corner pair; larger grids around seeded dense base mazes with 4 symbolic bits and 6 endpoint pairs each (4x3: 3 bases, 4x4: 5, 5x5: 8, 3x5: 2, 6x6: 4, 2x8: 5, 2x11: 3, 3x9: 3, 9x2: 2); "
+        quick="all connection structures (every bit symbolic) on all grids r x c with r*c <= 6 and all ordered (start,end) pairs; 3x3 with 12 pairs; larger grids around seeded dense base mazes with 4 symbolic bits and 6 endpoint pairs each (4x3: 3 bases, 4x4: 5, 5x5: 8, 3x5: 2, 6x6: 4, 2x8: 5, 2x11: 3, 3x9: 3, 9x2: 2); "
               "mazes carrying accurate generation metadata (a recorded component of 1-3 cells, queries among the other cells; all other bits symbolic); histories of queries on one maze object (two from the same start; on 2x3 also the reverse and a repeat) on 2x3, 2x4 and 3x3 (18 seeded histories)",
         thorough="as quick (query histories: 40 on 3x3, 28 on 2x3 / 2x4), plus 3x3 all 81 pairs, 3x4 and 4x3 exhaustively for 4 pairs each (16 instances per pair), seeded dense bases up to 8x8 and 2x9, 2x8 (all 2^22 mazes) for the pair (0,7)->(1,0), solve_targeted on 3x3 all pairs",
     ),
